@@ -1,4 +1,4 @@
-import QtVerif.Proofs.SlaveMirror
+import QtVerif.Proofs.SlaveGeneral
 /-!
 C12 — The master's mirror of a slave follows the slave.
 
@@ -260,5 +260,215 @@ theorem supersession_harmless (fix : Fix) (m : Master) (hn : NoPending m) (q1 q2
 
 example : NoPending m0 ∧ (⟨1, [(0, 0)], some (some 1)⟩ : PortMsg).id = (⟨1, [(0, 1)], some (some 2)⟩ : PortMsg).id ∧
     (⟨1, [(0, 1)], some (some 2)⟩ : PortMsg).value.isSome = true := by decide
+
+/-! ### 9. Reconnect with pending edits: push, then refresh (general form of §6, no steady state assumed)
+
+`applyReqs s (pushReqs fix m)` is the slave after it received the provisioning pushes of `_handle_online`
+(`applyReq`: PATCH /ports/<id>, PATCH /ports/<id>/value with a body, PATCH /device). -/
+
+/-- **Reconnect = push pending, then refresh** (listen mode, code as found or repaired, ANY pending edits, ANY
+mirror content): when the refresh is answered at slave state `s'`, the mirror equals `s'` and nothing is pending.
+`hdev`: every pending device attribute has a cached value (the offline edit path sets both together). -/
+theorem reconnect_resyncs (fix : Fix) (rf : List Nat) (m : Master) (s' : SlaveSt) (hmode : m.mode = .listen)
+    (hdev : ∀ n ∈ m.devProv, (m.dev.get? n).isSome) (hnd : (s'.ports.map (·.id)).Nodup) :
+    Synced (handleOnline fix rf m (some s'.dev) (some (s'.ports.map SPort.msg))).2 s' ∧
+    NoPending (handleOnline fix rf m (some s'.dev) (some (s'.ports.map SPort.msg))).2 :=
+  reconnect_synced fix rf m s' hmode hdev hnd
+
+-- a master with three kinds of pending edits, far from the slave state s1 it reconnects to
+example : mOff.mode = .listen ∧ (∀ n ∈ mOff.devProv, (mOff.dev.get? n).isSome) ∧ (s1.ports.map (·.id)).Nodup ∧
+    ¬ NoPending mOff ∧ ¬ Synced mOff s1 := by decide
+example : Synced (handleOnline Fix.asFound [] mOff (some s1.dev) (some (s1.ports.map SPort.msg))).2 s1 := by decide
+
+/-- The pushes do not change which ports the slave has (so its ids stay duplicate-free). -/
+theorem pushes_keep_slave_ids (s : SlaveSt) (l : List Req) (h : (s.ports.map (·.id)).Nodup) :
+    ((applyReqs s l).ports.map (·.id)).Nodup :=
+  applyReqs_nodup l s h
+
+example : (s0.ports.map (·.id)).Nodup := by decide
+
+/-- (i) A pending value is the slave's value after the pushes (repaired code: the push carries the value). -/
+theorem pushed_value_reaches_slave (fix : Fix) (hvb : fix.valueBody = true) (m : Master) (s : SlaveSt) (p : MPort)
+    (hp : p ∈ m.ports) (hnd : (m.ports.map (·.id)).Nodup) (hs : (findS s.ports p.id).isSome) (v : Int)
+    (hv : p.pendValue = some v) :
+    (findS (applyReqs s (pushReqs fix m)).ports p.id).map (·.value) = some (some v) :=
+  pushed_value_in_slave fix hvb m s p hp hnd hs v hv
+
+/-- (ii) Every pending attribute is among the slave's attributes of that port after the pushes. -/
+theorem pushed_attr_reaches_slave (fix : Fix) (m : Master) (s : SlaveSt) (p : MPort)
+    (hp : p ∈ m.ports) (hnd : (m.ports.map (·.id)).Nodup) (hs : (findS s.ports p.id).isSome) (n : Nat) (v : Int)
+    (hv : (n, v) ∈ p.pendAttrs) :
+    (findS (applyReqs s (pushReqs fix m)).ports p.id).bind (fun q => q.attrs.get? n) = some v :=
+  pushed_attr_in_slave fix m s p hp hnd hs n v hv
+
+/-- (iii) Every pending device attribute is among the slave's device attributes after the pushes. -/
+theorem pushed_dev_reaches_slave (fix : Fix) (m : Master) (s : SlaveSt) (n : Nat) (v : Int)
+    (hv : (n, v) ∈ m.pendDev) : (applyReqs s (pushReqs fix m)).dev.get? n = some v :=
+  pushed_dev_in_slave fix m s n v hv
+
+example : ∃ p ∈ mOff.ports, Fix.repaired.valueBody = true ∧ (mOff.ports.map (·.id)).Nodup ∧
+    (findS s0.ports p.id).isSome ∧ p.pendValue = some 9 ∧ (5, 21) ∈ p.pendAttrs ∧ (9, 2) ∈ mOff.pendDev :=
+  ⟨⟨1, [(0, 1), (5, 21)], [], some 9, [5], true, some 5, true⟩, by decide⟩
+example : sPushed = ⟨[⟨2, [(0, 0)], none⟩, ⟨1, [(0, 1), (5, 21)], some 9⟩], [(9, 2)], []⟩ := by decide
+-- the code as found sends the value push without a body: the slave's value stays what it was
+example : (findS (applyReqs s0 (pushReqs Fix.asFound mOff)).ports 1).map (·.value) = some (some 7) := by decide
+
+/-- **`mirror_eq_after_drain`, general form.** The master may hold any pending edits when the slave comes back
+(listen mode). The slave receives the pushes (state `s' = applyReqs s (pushReqs fix m)`), the refresh is answered
+from `s'`; then the mirror equals `s'`, nothing is pending any more, and the mirror shows every edit made while
+the slave was offline — the pending value (repaired push), every pending attribute, every pending device
+attribute — now also held by the slave: mirror ⊕ pending = slave. -/
+theorem mirror_eq_after_drain_general (fix : Fix) (rf : List Nat) (m : Master) (s : SlaveSt)
+    (hmode : m.mode = .listen) (hdev : ∀ n ∈ m.devProv, (m.dev.get? n).isSome)
+    (hnds : (s.ports.map (·.id)).Nodup) (hndm : (m.ports.map (·.id)).Nodup) :
+    Synced (handleOnline fix rf m (some (applyReqs s (pushReqs fix m)).dev)
+      (some ((applyReqs s (pushReqs fix m)).ports.map SPort.msg))).2 (applyReqs s (pushReqs fix m)) ∧
+    NoPending (handleOnline fix rf m (some (applyReqs s (pushReqs fix m)).dev)
+      (some ((applyReqs s (pushReqs fix m)).ports.map SPort.msg))).2 ∧
+    (∀ p ∈ m.ports, (findS s.ports p.id).isSome →
+      (fix.valueBody = true → ∀ v, p.pendValue = some v →
+        (mview (handleOnline fix rf m (some (applyReqs s (pushReqs fix m)).dev)
+          (some ((applyReqs s (pushReqs fix m)).ports.map SPort.msg))).2 p.id).map (·.value) = some (some v)) ∧
+      (∀ n v, (n, v) ∈ p.pendAttrs →
+        (mview (handleOnline fix rf m (some (applyReqs s (pushReqs fix m)).dev)
+          (some ((applyReqs s (pushReqs fix m)).ports.map SPort.msg))).2 p.id).bind
+            (fun pv => pv.attrs.get? n) = some v)) ∧
+    (∀ n v, (n, v) ∈ m.pendDev →
+      (handleOnline fix rf m (some (applyReqs s (pushReqs fix m)).dev)
+        (some ((applyReqs s (pushReqs fix m)).ports.map SPort.msg))).2.dev.get? n = some v) :=
+  reconnect_carries_edits fix rf m s hmode hdev hnds hndm
+
+example : mOff.mode = .listen ∧ (∀ n ∈ mOff.devProv, (mOff.dev.get? n).isSome) ∧ (s0.ports.map (·.id)).Nodup ∧
+    (mOff.ports.map (·.id)).Nodup ∧ ¬ NoPending mOff := by decide
+example : mview (handleOnline Fix.repaired [] mOff (some sPushed.dev) (some (sPushed.ports.map SPort.msg))).2 1 =
+    some ⟨[(0, 1), (5, 21)], some 9⟩ := by decide
+
+/-! ### 10. Pushed-events mode: every synchronisation run resynchronises -/
+
+/-- `_provision_and_update` (apply_provisioning, fetch device, fetch ports) answered at slave state `s'`: the mirror
+equals `s'` and nothing is pending, whatever was pending and whatever the mirror held. -/
+theorem pushed_sync_resyncs (fix : Fix) (rf : List Nat) (m : Master) (s' : SlaveSt)
+    (hdev : ∀ n ∈ m.devProv, (m.dev.get? n).isSome) (hnd : (s'.ports.map (·.id)).Nodup) :
+    Synced (provisionAndUpdate fix rf m (some s'.dev) (some (s'.ports.map SPort.msg))).2 s' ∧
+    NoPending (provisionAndUpdate fix rf m (some s'.dev) (some (s'.ports.map SPort.msg))).2 :=
+  pushed_synced fix rf m s' hdev hnd
+
+/-- One pushed event (handled out of band) followed by its run. `hrep`: a device-update event reports every
+pending device attribute (a real device reports its whole attribute set) — otherwise the event replaces the cache
+and a pending name loses its value (`hdev` would fail for the run). -/
+theorem pushed_step_resyncs (fix : Fix) (rf : List Nat) (m : Master) (e : Ev) (s' : SlaveSt)
+    (hdev : ∀ n ∈ m.devProv, (m.dev.get? n).isSome)
+    (hrep : ∀ a, e = .deviceUpdate a → ∀ n ∈ m.devProv, a.has n = true) (hnd : (s'.ports.map (·.id)).Nodup) :
+    Synced (pushedStep fix rf m e (some s'.dev) (some (s'.ports.map SPort.msg))).2 s' ∧
+    NoPending (pushedStep fix rf m e (some s'.dev) (some (s'.ports.map SPort.msg))).2 :=
+  pushedStep_synced fix rf m e s' hdev hrep hnd
+
+example : (∀ n ∈ mOff.devProv, (mOff.dev.get? n).isSome) ∧ (s1.ports.map (·.id)).Nodup ∧
+    (∀ a, Ev.deviceUpdate [(9, 3), (8, 0)] = .deviceUpdate a → ∀ n ∈ mOff.devProv, a.has n = true) := by
+  refine ⟨by decide, by decide, ?_⟩
+  intro a ha; cases ha; decide
+example : Synced (pushedStep Fix.asFound [] mOff (.valueChange 1 (some 3)) (some s1.dev)
+    (some (s1.ports.map SPort.msg))).2 s1 := by decide
+-- `hrep` is not superfluous: a device update that omits the pending name 9 replaces the cache, the pending name
+-- loses its value, `apply_provisioning` then has nothing to send for it and leaves it pending
+example : (∀ n ∈ mOff.devProv, (mOff.dev.get? n).isSome) ∧
+    ¬ NoPending (pushedStep Fix.repaired [] mOff (.deviceUpdate [(8, 0)]) (some s1.dev)
+      (some (s1.ports.map SPort.msg))).2 := by decide
+
+/-! ### 11. Polling converges, device attributes included -/
+
+/-- One `_poll_once` of an online, ready master in the steady state settles the device attributes: the cache equals
+the slave's device attributes as a dictionary (replaced when `attrsDiffer` sees a difference). -/
+theorem poll_device_converges (fix : Fix) (rf : List Nat) (m : Master) (d : Attrs) (ps : List PortMsg)
+    (hon : m.online = true) (hrd : m.ready = true) (hn : NoPending m) :
+    ∀ n, (pollOnce fix rf m d (some ps)).2.dev.get? n = d.get? n :=
+  pollOnce_dev fix rf m d ps hon hrd hn
+
+/-- `_poll_once` keeps the master online, ready and in the steady state (so polls can be iterated). -/
+theorem poll_keeps_steady (fix : Fix) (rf : List Nat) (m : Master) (d : Attrs) (ps : List PortMsg)
+    (hon : m.online = true) (hrd : m.ready = true) (hn : NoPending m) :
+    (pollOnce fix rf m d (some ps)).2.online = true ∧ (pollOnce fix rf m d (some ps)).2.ready = true ∧
+    NoPending (pollOnce fix rf m d (some ps)).2 :=
+  pollOnce_keeps fix rf m d ps hon hrd hn
+
+/-- **Two polls of an unchanged slave converge**: same port ids, the slave's values, the slave's port attributes
+and device attributes as dictionaries. -/
+theorem poll_converges (fix : Fix) (rf : List Nat) (m : Master) (s : SlaveSt)
+    (hon : m.online = true) (hrd : m.ready = true) (hn : NoPending m) :
+    PollSynced (pollOnce fix rf (pollOnce fix rf m s.dev (some (s.ports.map SPort.msg))).2 s.dev
+      (some (s.ports.map SPort.msg))).2 s ∧
+    ∀ n, (pollOnce fix rf (pollOnce fix rf m s.dev (some (s.ports.map SPort.msg))).2 s.dev
+      (some (s.ports.map SPort.msg))).2.dev.get? n = s.dev.get? n :=
+  pollOnce_twice fix rf m s hon hrd hn
+
+example : mPoll.online = true ∧ mPoll.ready = true ∧ NoPending mPoll := by decide
+example : (pollOnce Fix.asFound [] mPoll sPoll.dev (some (sPoll.ports.map SPort.msg))).2.dev = sPoll.dev ∧
+    mview (pollOnce Fix.asFound [] mPoll sPoll.dev (some (sPoll.ports.map SPort.msg))).2 3 = some ⟨[(0, 1)], none⟩ ∧
+    mview (pollOnce Fix.asFound [] (pollOnce Fix.asFound [] mPoll sPoll.dev (some (sPoll.ports.map SPort.msg))).2
+      sPoll.dev (some (sPoll.ports.map SPort.msg))).2 3 = some ⟨[(0, 1)], some 4⟩ := by decide
+
+/-! ### 12. The offline invariant "mirror ⊕ pending = slave" (no steady state assumed; code as found and repaired)
+
+`OverlaySynced m s`: same port ids; every attribute that is not pending has the slave's value; where no value is
+pending the newest remote value is the slave's. What IS pending is the user's: that half is C13 (`Kept`), and it is
+the half the code as found loses on a port-update. -/
+
+/-- **Every event kind keeps it**: the slave makes any change `c` emitting `e`; handling `e` keeps the overlay
+invariant, pending edits or not. -/
+theorem overlay_handler_tracks_change (fix : Fix) (m : Master) (s s' : SlaveSt)
+    (c : Change) (e : Ev) (ho : OverlaySynced m s) (hc : applyChange s c = (s', some e)) :
+    OverlaySynced (stepEvent fix m e) s' :=
+  overlay_stepEvent fix ho hc
+
+/-- A synced mirror satisfies it, whatever is pending. -/
+theorem overlay_of_mirror_eq (m : Master) (s : SlaveSt) (h : Synced m s) : OverlaySynced m s :=
+  overlay_of_synced h
+
+/-- Offline edits keep it (they only enlarge the pending set): attribute … -/
+theorem overlay_edit_attr (m : Master) (s : SlaveSt) (id n : Nat) (v : Int) (ho : OverlaySynced m s) :
+    OverlaySynced (editAttr m id n v).1 s :=
+  overlay_editAttr m s id n v ho
+
+/-- … value … -/
+theorem overlay_edit_value (m : Master) (s : SlaveSt) (hoff : m.online = false) (id : Nat) (v : Int) (ok : Bool)
+    (ho : OverlaySynced m s) : OverlaySynced (editValue m id v ok).1 s :=
+  overlay_editValue m s hoff id v ok ho
+
+/-- … device attribute (ports not concerned). -/
+theorem overlay_edit_dev (m : Master) (s : SlaveSt) (n : Nat) (v : Int) (ho : OverlaySynced m s) :
+    OverlaySynced (editDev m n v).1 s :=
+  overlay_editDev m s n v ho
+
+/-- **Along every interleaving** of remote changes and listen responses (the `run` of §2–4), with any pending
+edits: replaying the still-queued events on the mirror gives a mirror that follows the slave in everything that is
+not pending. -/
+theorem overlay_history (fix : Fix) (m : Master) (s : SlaveSt) (steps : List Step)
+    (hi : OverlayInv fix m s) : OverlayInv fix (run fix (m, s) steps).1 (run fix (m, s) steps).2 :=
+  overlayInv_run fix steps (m, s) hi
+
+/-- Remote changes each delivered at once. -/
+theorem overlay_history_delivered (fix : Fix) (m : Master) (s : SlaveSt)
+    (cs : List Change) (ho : OverlaySynced m s) :
+    OverlaySynced (cs.foldl (deliverStep fix) (m, s)).1 (cs.foldl (deliverStep fix) (m, s)).2 :=
+  overlay_deliverAll fix cs (m, s) ho
+
+/-- With nothing pending the overlay invariant is agreement on port ids, values and (as dictionaries) attributes. -/
+theorem overlay_nopending (m : Master) (s : SlaveSt) (hn : NoPending m) (ho : OverlaySynced m s) : PollSynced m s :=
+  pollSynced_of_overlay hn ho
+
+-- a master that goes offline in sync, then takes an attribute edit and a value edit: hypotheses of the above,
+-- with pending edits and a mirror that is no longer equal to the slave
+example : Synced (goOffline m0) s0 ∧ (goOffline m0).online = false ∧
+    (editAttr (goOffline m0) 1 5 21).1.online = false ∧
+    ¬ NoPending (editValue (editAttr (goOffline m0) 1 5 21).1 1 9 true).1 ∧
+    ¬ Synced (editValue (editAttr (goOffline m0) 1 5 21).1 1 9 true).1 s0 := by decide
+example : OverlaySynced (editValue (editAttr (goOffline m0) 1 5 21).1 1 9 true).1 s0 :=
+  overlay_edit_value _ _ (by decide) 1 9 true (overlay_edit_attr _ _ 1 5 21 (overlay_of_mirror_eq _ _ (by decide)))
+example : s0.queue = [] ∧ ∃ s' e, applyChange s0 (.setAttrs 1 [(0, 1), (5, 30)] (some 2)) = (s', some e) :=
+  ⟨rfl, _, _, rfl⟩
+-- the code as found drops the pending attribute when the slave reports the port: the invariant's other half
+-- (pending = the user's) is C13; here the repaired handler keeps 5 ↦ 21 while taking 0 from the slave
+example : (findPort (stepEvent Fix.repaired (editAttr (goOffline m0) 1 5 21).1
+    (.portUpdate ⟨1, [(0, 0), (5, 30)], some (some 2)⟩)).ports 1).map (·.attrs) = some [(0, 0), (5, 21)] := by decide
 
 end QtVerif.Slave.C12
